@@ -1087,6 +1087,7 @@ Definition cases : list case := [
 	failing := 0
 	uncertifiedClean := 0
 	classCount := map[string]int{}
+	coveredRefuted := map[string]int{}
 	shrunkPerClass := map[string]int{}
 	for i, p := range pats {
 		if rewrites[i] == "" {
@@ -1110,6 +1111,11 @@ Definition cases : list case := [
 			class = "unclassified:" + sp + "=>" + srw
 		}
 		classCount[class]++
+		if inFrag[i] {
+			// pass 1 is proved sound at tree level for this pattern: the damage must come from the text
+			// (re-lexing) or from the second pass
+			coveredRefuted[class]++
+		}
 		if shrunkPerClass[class] < 5 {
 			shrunkPerClass[class]++
 			what := fmt.Sprintf("regexpSimplify rewrites `%s` as `%s`, which is not the same regular expression: %s", sp, srw, describe(sd))
@@ -1123,6 +1129,7 @@ Definition cases : list case := [
 	meta.Distribution["oracle_failing_rewrites"] = failing
 	meta.Distribution["rewrites_neither_certified_nor_refuted"] = uncertifiedClean
 	meta.Distribution["oracle_defect_classes"] = classCount
+	meta.Distribution["oracle_refuted_although_pass1_tree_proved_sound"] = coveredRefuted
 	meta.Evaluations = len(pats) + semRuns + subjectsTried
 	meta.Distinct = nRewrites
 	meta.Rule = "patterns: the repo's regexpSimplify testdata strings and the defect corpus first, then grammar-based (small alphabet), metacharacter-heavy, class-heavy and mutation streams, all valid UTF-8 and accepted by regexp.Compile, <= 60 bytes plus a few longer ones; each is parsed by syntax.Parser{NoLiterals:true} (tree dumped as a Coq term), run through linter.NewChecker(regexpSimplify) on a type-checked generated file, and compared in Coq with the model's two-pass result (the parser supplies the tree of the model's pass-1 text); matcher model vs regexp.FindStringSubmatchIndex on sampled (pattern, subject) pairs; oracle: both sides of every proposed rewrite compiled by regexp and compared on NumSubexp, SubexpNames and FindStringSubmatchIndex over all subjects up to length 4 (5 thorough) over the pattern's alphabet + a foreign rune, \\n, \\v. distinct_nontrivial = number of distinct patterns for which the checker proposed a rewrite"
